@@ -95,6 +95,7 @@ Proof.
     exact (toy_time_iso t (valid_tm_is_text t Hv)).
   - exact toy_canon_unsigned.
   - exact toy_parse_duration.
+  - reflexivity.
 Qed.
 
 (* enum members of the toy are looked up by the text of their value *)
